@@ -173,6 +173,11 @@ def item_2d(call, M, N, raised):
                zl(k1), zl(k2), zl(d1), zl(d2), zl(do1), zl(do2), coq_b(pre_raise_2d(call)), coq_b(raised)))
 
 
+FLOAT_KW2 = {'modpoly': {'tol': 1e-3}, 'imodpoly': {'tol': 1e-3, 'num_std': 1.0}, 'penalized_poly': {'tol': 1e-3},
+             'quant_reg': {'quantile': 0.05}, 'pspline_asls': {'lam': 10.0, 'p': 0.02}, 'pspline_arpls': {'lam': 10.0},
+             'pspline_airpls': {'lam': 10.0}, 'mixture_model': {'lam': 10.0, 'p': 0.02}, 'irsqr': {'lam': 10.0, 'quantile': 0.05},
+             'pspline_psalsa': {'lam': 10.0}, 'pspline_iasls': {'lam': 10.0}, 'iasls': {'lam': 1e2},
+             'adaptive_minmax': {'constrained_fraction': 0.05}}
 OPTIMIZERS2 = {'adaptive_minmax', 'collab_pls', 'individual_axes'}
 
 
@@ -385,6 +390,8 @@ def gen_history_2d(rng, nmax=10):
             seq.append(mk(k))
         pos = rng.randint(0, len(calls))
         calls = calls[:pos] + seq + calls[pos:]
+    from .c03 import echo
+    calls = echo(rng, calls, FLOAT_KW2)
     return {'dim': 2, 'M': M, 'N': N, 'x': xk, 'seed': rng.randrange(10 ** 6), 'calls': calls}
 
 
